@@ -18,6 +18,10 @@ CHECKS = {
    text="Full product, within the stated catalogs, of ACL entries x fabric placements x accessors x element access declarations x operations x paths, evaluated on the real AccessReq::allow / Accessor::is_endpoint_accessible and compared with an independent reference written from the property text.",
    note="aux_acl_enabled=false; identifier values outside the catalogs behave like the catalog representatives (renaming symmetry); at most two ACL entries installed at a time.",
    tech="bounded exhaustive configuration/input enumeration against a reference model"),
+ "C09": dict(cat="model_checking",
+   text="Two real Matter nodes with a pre-established secure session under a virtual clock and an adversarial datagram network: every schedule with at most k non-default adversary decisions (drop, duplicate, reorder, timer-first) is executed to completion, from the FIFO policy and from 'drop the first n datagrams of one direction' policies (n up to all), for CASE and PASE sessions and three receiver behaviours; oracles on every execution: application sees a duplicate-free in-order prefix, send is Ok only if delivered, fails with TxTimeout when everything is lost, succeeds when a transmission and the acknowledgement got through, back-off respected, duplicates re-acknowledged, sender never hangs.",
+   note="Latency >= 1 ms, adversary acts at quiescent points; datagrams attributed to messages by size class and plain-header counter; two messages on one exchange per execution.",
+   tech="stateless deviation-bounded DFS (iterative context bounding) over environment decisions of the real implementation"),
  "C12": dict(cat="model_checking",
    text="BFS over histories of use / use-with-failing-store / burst-to-next-store-point / restart (check-in: also crash-after-use, invalidate, owed persist) on the three real counters through their real persistence paths over a recording KV store, from stored boundaries absent, small and next to the range wrap; oracles: no value twice, and every value covered by the durable boundary at the moment of use.",
    note="Fewer than one full range consumed per history; group values count as used when initiate_group returns an exchange carrying them; the check-in application follows the interface contract.",
